@@ -3,6 +3,7 @@ package core
 import (
 	"fmt"
 	"sort"
+	"strings"
 
 	"github.com/truora/minidyn/interpreter"
 	"github.com/truora/minidyn/types"
@@ -269,7 +270,37 @@ func (t *Table) fetchQueryData(input QueryInput) (*index, []string) {
 	return nil, t.SortedKeys
 }
 
-func prepareSearch(input *QueryInput, index *index, k, startKey string) (string, bool) {
+// searchStart is the position of the exclusive start key in the iteration order
+type searchStart struct {
+	key      string
+	indexKey string
+	forward  bool
+}
+
+// passed tells whether the entry lies strictly after the start position,
+// whether or not the item the start key names still exists
+func (s searchStart) passed(index *index, k, pk string) bool {
+	cmp := strings.Compare(k, s.key)
+	if index != nil {
+		if s.indexKey == "" {
+			// the start key does not place itself in this index
+			return false
+		}
+
+		cmp = strings.Compare(k, s.indexKey)
+		if cmp == 0 {
+			cmp = strings.Compare(pk, s.key)
+		}
+	}
+
+	if s.forward {
+		return cmp > 0
+	}
+
+	return cmp < 0
+}
+
+func prepareSearch(input *QueryInput, index *index, k string, start searchStart) (string, bool) {
 	pk, ok := getPrimaryKey(index, k)
 	if !ok {
 		return pk, ok
@@ -279,7 +310,13 @@ func prepareSearch(input *QueryInput, index *index, k, startKey string) (string,
 		return pk, true
 	}
 
-	if pk == startKey {
+	if start.passed(index, k, pk) {
+		input.started = true
+
+		return pk, true
+	}
+
+	if pk == start.key {
 		input.started = true
 	}
 
@@ -332,6 +369,12 @@ func (t *Table) SearchData(input QueryInput) ([]map[string]*types.Item, map[stri
 	index, sortedKeys := t.fetchQueryData(input)
 
 	startKey := t.parseStartKey(t.KeySchema, exclusiveStartKey)
+	start := searchStart{key: startKey, forward: input.ScanIndexForward}
+
+	if index != nil && startKey != "" {
+		start.indexKey = t.parseStartKey(index.keySchema, exclusiveStartKey)
+	}
+
 	input.started = startKey == ""
 	last := map[string]*types.Item{}
 	sortedKeysSize := int64(len(sortedKeys))
@@ -346,7 +389,7 @@ func (t *Table) SearchData(input QueryInput) ([]map[string]*types.Item, map[stri
 	for pos := range sortedKeys {
 		k := GetKeyAt(sortedKeys, sortedKeysSize, int64(pos), forward)
 
-		pk, ok := prepareSearch(&input, index, k, startKey)
+		pk, ok := prepareSearch(&input, index, k, start)
 		if !ok {
 			scanned++
 			continue
